@@ -79,17 +79,24 @@ def generate_structure_checks(env, res):
                 continue
             calls = [e for e in g.events if e[0] == "call"]
             last_valid = None
+            fresh = False
             for e in calls:
                 if e[1] == "get_valid_opcodes":
                     last_valid = e[2]
+                    fresh = True
                 elif e[1] == "emit_and_process":
                     ch = e[2]
                     if not isinstance(ch, GA.Chosen) or ch.src is not last_valid:
                         res.add("R01.a", "generate_internal/emit-not-chosen",
                                 "generation loop hands emit_and_process an opcode that is not weighted_choice(get_valid_opcodes()) of the same iteration", loc)
+                    elif not fresh:
+                        res.add("R01.a", "generate_internal/stale-valid-opcodes",
+                                "generation loop chooses from a valid-opcode list computed before the previous opcode was emitted: the guards "
+                                "(can_emit) were evaluated in a state that no longer exists", loc)
                     elif last_valid.empty is not False:
                         res.add("R01.a", "generate_internal/empty-not-cut",
                                 "generation loop calls emit_and_process although the valid-opcode list may be empty", loc)
+                    fresh = False
             if g.end is None and g.ret is not None and getattr(g.ret, "vname", None) == "Ok":
                 # R01.e: after cleanup exactly one STOP is appended and nothing after it
                 ws = g.writes
